@@ -26,9 +26,14 @@
       write has completed (`any_transport_yields_the_models_wire`), and the mock transports of the correspondence run
       (`wr=all|one|pend|pendone`) are such oracles (`mock_transport_writes_everything`); a transport with a byte budget
       (`werr=`, `wzero=`) leaves exactly the first `L` bytes of the packet, as `World.writeBytes` does
-      (`budgeted_transport_takes_the_budget`, `exhausted_transport_takes_nothing`).
+      (`budgeted_transport_takes_the_budget`, `exhausted_transport_takes_nothing`);
+    * the `WCALLS` line the driver prints for a connection (TxMock.lean: the harness's mock as a generator of oracle answers,
+      whatever state the previous write left it in) is always that of completed writes, its byte count the total length of the
+      packets (`mock_connection_statistics_are_of_completed_writes`) — the line itself is compared with the implementation's
+      on every script without a byte budget.
 -/
 import PosterModel.Lemmas.TxStream
+import PosterModel.Lemmas.TxMock
 import PosterModel.Properties.C01World
 
 namespace Poster
@@ -238,7 +243,43 @@ theorem exhausted_transport_takes_nothing (bs : Bytes) (fault : WEv) (hf : fault
     (writeAll bs (fault :: tr)).1.acc = [] ∧ (writeAll bs (fault :: tr)).1.out = .err := by
   rcases hf with rfl | rfl <;> simp [writeAll, hne]
 
+namespace TxStream
+/-- **The mock transports of the correspondence run take every packet whole**, whatever the policy and the state the
+    previous write left: the statistics the driver prints (`WCALLS`) are those of completed writes, and `bytes` is the
+    total length of the packets. -/
+theorem mock_connection_statistics_are_of_completed_writes (pkts : List Bytes) : ∀ (m : MockW),
+    (mockStats m pkts).ok = true ∧ (mockStats m pkts).bytes = (pkts.map List.length).sum := by
+  suffices h : ∀ (pkts : List Bytes) (acc : WStats) (m : MockW),
+      let r := (pkts.foldl (fun (acc : WStats × MockW) p =>
+        let (evs, m') := acc.2.answers (2 * p.length + 2) p.length
+        let (r, polls) := writeAll p evs
+        ({ calls := acc.1.calls + r.calls, pend := acc.1.pend + (polls - 1), bytes := acc.1.bytes + r.acc.length,
+           ok := acc.1.ok && r.out == .done }, m')) (acc, m)).1
+      r.ok = acc.ok ∧ r.bytes = acc.bytes + (pkts.map List.length).sum by
+    intro m
+    have := h pkts {} m
+    simpa [mockStats] using this
+  intro pkts
+  induction pkts with
+  | nil => intro acc m; simp
+  | cons p ps ih =>
+    intro acc m
+    simp only [List.foldl_cons, List.map_cons, List.sum_cons]
+    have hc := answers_complete (2 * p.length + 2) m p (by split <;> omega)
+    have := ih { calls := acc.calls + (writeAll p (m.answers (2 * p.length + 2) p.length).1).1.calls,
+                 pend := acc.pend + ((writeAll p (m.answers (2 * p.length + 2) p.length).1).2 - 1),
+                 bytes := acc.bytes + (writeAll p (m.answers (2 * p.length + 2) p.length).1).1.acc.length,
+                 ok := acc.ok && (writeAll p (m.answers (2 * p.length + 2) p.length).1).1.out == .done }
+               (m.answers (2 * p.length + 2) p.length).2
+    simp only [] at this ⊢
+    rw [this.1, this.2, hc.1, hc.2.1]
+    simp [Nat.add_assoc]
+
+end TxStream
+
 /-! ## non-vacuity: concrete runs -/
+
+example : TxStream.mockStats { one := true, pend := true } [[0xc0, 0x00], [0x40, 0x02, 0x00, 0x07]] = ⟨12, 6, 6, true⟩ := by decide
 
 example : (writeAll [1, 2, 3, 4] [.accept 1, .zero]).1.acc = [1, 2] := by decide
 
@@ -273,5 +314,6 @@ end Poster
 #print axioms Poster.wire_frames_to_the_completed_packets
 #print axioms Poster.any_transport_yields_the_models_wire
 #print axioms Poster.mock_transport_writes_everything
+#print axioms Poster.TxStream.mock_connection_statistics_are_of_completed_writes
 #print axioms Poster.budgeted_transport_takes_the_budget
 #print axioms Poster.exhausted_transport_takes_nothing
